@@ -16,6 +16,10 @@ INVARIANT BitmapBuilderIsSetEncoding
 INVARIANT EmitNsec
 INVARIANT EmitNsec3
 INVARIANT EmitBitmap
+INVARIANT EmitParams
+INVARIANT EmitBad
+INVARIANT BadZonesRefused
+INVARIANT ParamsOk
 INVARIANT LongApexLaws
 INVARIANT EmitLongApex
 CHECK_DEADLOCK FALSE
